@@ -1,4 +1,5 @@
 // C12, negation clauses: negating the input negates HLNormalizer, Vsct, Vst, NET, TrendFlex and ReFlex (non-degenerate windows)
+use crate::props::c00_affine::*;
 use crate::props::c04_averages::*;
 use crate::props::c12_invariance::*;
 use crate::props::c12_normalised::*;
